@@ -148,6 +148,47 @@ func run6(r *ev.Run, args []string) {
 			}
 		}
 	}
+	irrelevant6(r, h, args, own)
+}
+
+// irrelevant6: the discard decision and the identifier in the reply depend on the message type
+// and the Server Identifier option only - not on any other option of the message.
+func irrelevant6(r *ev.Run, h handler.Handler6, args []string, own []byte) {
+	other := duid(args[0], []byte{2, 9, 9, 9, 9, 9})
+	for _, t := range []byte{1, 3, 5, 6, 11} {
+		for _, sv := range []struct {
+			name string
+			data []byte
+		}{{"absent", nil}, {"equal", own}, {"other-mac", other}} {
+			drop := false
+			switch {
+			case sv.data != nil && (t == 1 || t == 4 || t == 6):
+				drop = true
+			case sv.data == nil && (t == 3 || t == 5 || t == 9 || t == 8):
+				drop = true
+			case sv.data != nil && sv.name != "equal":
+				drop = true
+			}
+			for i, x := range pkt.Extra6() {
+				m := pkt.Msg6{Type: t, Xid: [3]byte{1, 5, t}, Opts: []pkt.Opt6{{Code: 1, Data: []byte{0, 3, 0, 1, 2, 0, 0, 0xaa, 0xbb, 0xcc}}}}
+				if i%2 == 0 {
+					m.Opts = append(m.Opts, x)
+				}
+				if sv.data != nil {
+					m.Opts = append(m.Opts, pkt.Opt6{Code: 2, Data: sv.data})
+				}
+				if i%2 == 1 {
+					m.Opts = append(m.Opts, x)
+				}
+				b := m.Bytes()
+				if _, err := dhcpv6.FromBytes(b); err != nil {
+					continue // the codec rejects this payload: dropped before any plugin
+				}
+				c := Case{6, args, hex.EncodeToString(b), false}
+				eval6(r, h, c, own, drop, fmt.Sprintf("v6/type=%s/sid=%s/extra-option", tn(t), sv.name))
+			}
+		}
+	}
 }
 
 func tn(t byte) string {
